@@ -109,7 +109,7 @@ class Test(object):
     shrink    : {'quick': bool, 'thorough': bool}
     """
     def __init__(self, name, run, strategy=None, machine=None, examples=None,
-                 steps=None, shrink=None, shards=None):
+                 steps=None, shrink=None, shards=None, fuzz=None):
         self.name = name
         self.run = run
         self.strategy = strategy
@@ -118,6 +118,8 @@ class Test(object):
         self.steps = steps or {'quick': 20, 'thorough': 50}
         self.shrink = shrink or {'quick': True, 'thorough': True}
         self.shards = shards
+        # libFuzzer executions per shard for the coverage-guided driver (vp/fuzz.py); None = module default
+        self.fuzz = fuzz
 
 
 class Ctx(object):
@@ -595,6 +597,72 @@ def write_replay(prop, failure, test, seed, tag='viol'):
 
 
 # ---------------------------------------------------------------------------
+# coverage-guided extra (thorough tier): the same tests driven by libFuzzer through atheris
+
+def run_fuzz(prop, tests, runs_default, seed, nshards, wall_s):
+    """one subprocess per (test, shard): python -m vp.fuzz ...; returns (summaries, violations, errors)"""
+    import subprocess, tempfile
+    try:
+        sys.path.insert(1, os.path.join(VERIF, '.deps'))
+        import atheris  # noqa
+    except Exception as e:
+        return {'skipped': 'atheris is not importable (%s): run setup.sh' % e}, [], []
+    d = tempfile.mkdtemp(prefix='vp-fuzz-')
+    jobs = []
+    for ti, t in enumerate(tests):
+        if t.machine is not None:
+            continue
+        runs = t.fuzz if t.fuzz is not None else runs_default
+        if not runs:
+            continue
+        for sh in range(nshards):
+            out = os.path.join(d, '%s-%d.json' % (t.name, sh))
+            jobs.append((t.name, sh, out, [sys.executable, '-m', 'vp.fuzz', prop, t.name, '--runs', str(int(runs)),
+                                           '--seed', str(seed * 1000 + ti * 100 + sh + 1), '--out', out]))
+    env = dict(os.environ, PYTHONHASHSEED='0', PYTHONDONTWRITEBYTECODE='1',
+               PYTHONPATH=VERIF + os.pathsep + os.environ.get('PYTHONPATH', ''))
+    running = []; pending = list(jobs); t0 = time.time()
+    summaries = {}; violations = []; errors = []
+    def reap(name, sh, out, p, log):
+        try:
+            with open(out) as fh:
+                sm = json.load(fh)
+        except Exception:
+            sm = {'cases': 0, 'nontrivial': 0, 'status': 'lost'}
+        acc = summaries.setdefault(name, {'cases': 0, 'nontrivial': 0, 'shards': 0, 'wall_s': 0.0, 'status': {}})
+        acc['cases'] += sm.get('cases', 0); acc['nontrivial'] += sm.get('nontrivial', 0); acc['shards'] += 1
+        acc['wall_s'] = max(acc['wall_s'], sm.get('wall_s', 0.0))
+        stt = sm.get('status', 'lost')
+        if p.returncode == 0 and stt == 'running':
+            stt = 'done'
+        acc['status'][stt] = acc['status'].get(stt, 0) + 1
+        if sm.get('violation'):
+            violations.append((sm['violation']['replay'], {'subcheck': sm['violation']['subcheck'], 'engine': 'atheris', 'test': name}))
+        elif p.returncode not in (0, None) and stt not in ('violation',):
+            try:
+                tail = open(log).read()[-600:]
+            except Exception:
+                tail = ''
+            if stt == 'harness' or p.returncode == 2:
+                errors.append('fuzz %s shard %d: %s' % (name, sh, tail))
+    while pending or running:
+        while pending and len(running) < nshards:
+            name, sh, out, cmd = pending.pop(0)
+            log = out + '.log'
+            p = subprocess.Popen(cmd, cwd=VERIF, env=env, stdout=open(log, 'w'), stderr=subprocess.STDOUT)
+            running.append((name, sh, out, p, log, time.time()))
+        time.sleep(0.5)
+        for r in list(running):
+            if r[3].poll() is not None:
+                running.remove(r); reap(*r[:5])
+            elif time.time() - r[5] > wall_s:          # per process; what it had counted so far is kept
+                r[3].kill(); r[3].wait(); running.remove(r); reap(*r[:5])
+    import shutil
+    shutil.rmtree(d, ignore_errors=True)
+    return summaries, violations, errors
+
+
+# ---------------------------------------------------------------------------
 # main
 
 def main(argv=None):
@@ -614,6 +682,8 @@ def main(argv=None):
     ap.add_argument('--only', default=None, help='run only the named test(s), comma separated')
     ap.add_argument('--scale', type=float, default=1.0, help='multiply example counts')
     ap.add_argument('--no-evidence', action='store_true')
+    ap.add_argument('--fuzz', type=int, default=None,
+                    help='libFuzzer executions per shard and @given test (default: the module FUZZ value in the thorough tier, 0 = off)')
     a = ap.parse_args(argv)
     prop = a.prop.upper()
     tier = a.tier if a.tier in ('quick', 'thorough') else 'quick'
@@ -722,6 +792,13 @@ def main(argv=None):
         elif r['status'] == 'timeout':
             inconclusive.append('%s shard %s: %s' % (r['test'], r['shard'], r.get('error')))
 
+    # 4. coverage-guided extra
+    fuzz_runs = a.fuzz if a.fuzz is not None else (getattr(mod, 'FUZZ', 0) if tier == 'thorough' else 0)
+    fuzz_summary = None
+    if fuzz_runs and tests:
+        fuzz_summary, fv, fe = run_fuzz(prop, tests, fuzz_runs, seed, nsh_default, budget_s)
+        violations.extend(fv)
+        harness_errors.extend(fe)
     wall = time.time() - t0
     if not samples and results:
         samples = [{'note': 'no non-trivial case in this run'}]
@@ -740,6 +817,7 @@ def main(argv=None):
             'replayed': replayed,
             'budget_skipped_cases': budget_skipped,
             'inconclusive_shards': inconclusive,
+            'atheris': fuzz_summary,
             'shards': nsh_default,
             'exhaustive': False,
         },
@@ -757,6 +835,10 @@ def main(argv=None):
         (' budget_skipped=%d (inconclusive part)' % budget_skipped) if budget_skipped else ''))
     for k, v in sorted(per_test.items()):
         print('  test %-14s cases=%-7d nontrivial=%-7d wall=%.1fs' % (k, v['cases'], v['nontrivial'], v['wall_s']))
+    for k, v in sorted((fuzz_summary or {}).items()):
+        if not isinstance(v, dict):
+            print('  fuzz: %s %s' % (k, v)); continue
+        print('  fuzz %-14s cases=%-7d nontrivial=%-7d wall=%.1fs shards=%s' % (k, v['cases'], v['nontrivial'], v['wall_s'], v['status']))
     if os.environ.get('VP_VERBOSE'):
         print('  classes: ' + jdump(dict(sorted(labels.items()))))
         print('  subchecks: ' + jdump(ev['coverage']['subchecks']))
